@@ -1,21 +1,33 @@
 #!/usr/bin/env python3
 """Assemble lean/FeatModel/Props/C19.lean from the statement file and the lemma files that exist."""
 import os, re, sys
-stm = open("/verif/lean/FeatModel/Props/C19.statements").read()
+ROOT = os.path.dirname(os.path.dirname(os.path.abspath(__file__)))
+stm = open(ROOT + "/lean/FeatModel/Props/C19.statements").read()
 groups = {"renders": ["injectify_spec", "transpose_spec", "injectifyTranspose_spec", "compose_spec", "sortIndices_spec", "arrays_faithful"],
           "perms": ["swapFromPerm_terminates", "swap_perm_agree", "inverse_swaps_undo", "applyPermInv_undoes", "invPerm_spec", "concat_composes", "permFromSwap_bijection"],
           "color": ["coloring_proper", "coloring_bounds", "coloringOrdered_proper", "partitionGraph_spec"],
-          "cm": ["cm_bijection"]}
+          "cm": ["cm_bijection"],
+          "walk": ["adjactor_ofGraph_spec", "adjactor_composite_spec", "walk_spec"],
+          "rowk": ["renderRows_spec", "sortSegments_spec"],
+          "colk": ["renderCols_spec"],
+          "kernels": ["kernel_render_eq", "kernel_render2_eq"],
+          "api": ["degree_spec", "permuteIndices_spec", "clone_spec", "numDistinct_spec", "greedy_colors_contiguous",
+                  "compositeIterator_spec", "compositeIterator_empty_head", "compositeIterator_fixed_spec", "degree_is_max"],
+          "dyn": ["dyn_insert_spec", "dyn_erase_spec", "dyn_ofAdjactor_spec", "dyn_ofAdjactor_transpose_spec",
+                  "dyn_render_spec", "dyn_compose_spec"],
+          "layers": ["cm_layers_are_bfs_levels"],
+          "csr": ["graph_csr_permute_consistent"],
+          "perms2": ["inverse_inverse", "concat_inverse", "self_concat", "random_ctor_bijection", "graph_permuted_spec"]}
 have = {}
 for k, names in groups.items():
-    p = "/verif/lean/FeatModel/Lemmas/C19_%s.lean" % k
+    p = ROOT + "/lean/FeatModel/Lemmas/C19_%s.lean" % k
     if os.path.exists(p):
         txt = open(p).read()
         for n in names:
             if re.search(r"theorem (C19L\.)?%s\b" % n, txt):
                 have[n] = k
 blocks = re.split(r"\n(?=theorem )", stm)
-out = ["import FeatModel.Model.Adjacency"] + ["import FeatModel.Lemmas.C19_%s" % k for k in sorted(set(have.values()))]
+out = ["import FeatModel.Model.Adjacency", "import FeatModel.Model.AdjKernels"] + ["import FeatModel.Lemmas.C19_%s" % k for k in sorted(set(have.values()))]
 out += ["/-! # C19 — property theorems (statements only; proofs live in Lemmas/C19_*.lean) -/", "open FeatModel.Adj", "",
         "theorem C19.render_asIs_spec (g : Graph) : g.render 0 = some g := rfl", ""]
 missing = []
@@ -50,5 +62,5 @@ for b in blocks:
         else:
             i += 1
     out.append(head.rstrip() + " :=\n  C19L.%s.%s %s\n" % (have[name], name, " ".join(binders)))
-open("/verif/lean/FeatModel/Props/C19.lean", "w").write("\n".join(out))
+open(ROOT + "/lean/FeatModel/Props/C19.lean", "w").write("\n".join(out))
 print("proved:", sorted(have), "\nmissing:", missing)
